@@ -319,6 +319,45 @@ Fixpoint apply_ops (js : list (list join)) (ops : list op) : list (list join) * 
   | o :: t => let '(js1, c) := apply_op js o in let '(js2, cs) := apply_ops js1 t in (js2, c :: cs)
   end.
 
+(* ------------------------------------------------------------------ JoinLink: dataset identities vs. ComponentID parents *)
+(* A ComponentID is an object of its own: [cid_uid] says which one, [cid_parent] is its .parent attribute - the dataset it was
+   first created for, in general NOT the dataset that stores a column under it (Data.add_component(values, existing_cid),
+   Data.update_id, a free-standing ComponentID(label, parent=...)).  A JoinLink names its two datasets itself. *)
+Record cid : Type := Cid { cid_uid : nat; cid_parent : nat }.
+Definition dcid : cid := Cid 0 0.
+Record jlink : Type := JLink { data1 : nat; data2 : nat; cids1 : list cid; cids2 : list cid }.
+(* per dataset: the uid of the ComponentID each key column is stored under *)
+Definition layout : Type := list (list nat).
+Fixpoint index_of (u : nat) (l : list nat) : nat :=
+  match l with [] => 0%nat | x :: t => if Nat.eqb x u then 0%nat else Datatypes.S (index_of u t) end.
+(* the column of dataset d that is stored under the ComponentID c (= length when there is none) *)
+Definition cpos (L : layout) (d : nat) (c : cid) : nat := index_of (cid_uid c) (nth d L []).
+(* d1.join_on_key(d2, c1, c2) with ComponentID arguments *)
+Definition join_on_key_cids (L : layout) (js : list (list join)) (d1 d2 : nat) (c1 c2 : cid) : list (list join) * Z :=
+  join_on_key js d1 d2 [cpos L d1 c1] [cpos L d2 c2].
+(* LinkManager.add_link(JoinLink): the join is made between the two datasets the link names *)
+Definition add_link (L : layout) (js : list (list join)) (l : jlink) : list (list join) * Z :=
+  join_on_key_cids L js (data1 l) (data2 l) (hd dcid (cids1 l)) (hd dcid (cids2 l)).
+(* LinkManager.remove_link(JoinLink) *)
+Definition remove_link (L : layout) (js : list (list join)) (l : jlink) : list (list join) * Z :=
+  unlink js (data1 l) (data2 l) (cpos L (data1 l) (hd dcid (cids1 l))) (cpos L (data2 l) (hd dcid (cids2 l))).
+
+Inductive lop : Type :=
+| LPlain (o : op)
+| LLink (l : jlink)              (* DataCollection.add_link(JoinLink(data1, data2, cids1, cids2)) *)
+| LUnlink (l : jlink).           (* DataCollection.remove_link(the same link) *)
+Definition apply_lop (L : layout) (js : list (list join)) (o : lop) : list (list join) * Z :=
+  match o with
+  | LPlain o => apply_op js o
+  | LLink l => add_link L js l
+  | LUnlink l => remove_link L js l
+  end.
+Fixpoint apply_lops (L : layout) (js : list (list join)) (ops : list lop) : list (list join) * list Z :=
+  match ops with
+  | [] => (js, [])
+  | o :: t => let '(js1, c) := apply_lop L js o in let '(js2, cs) := apply_lops L js1 t in (js2, c :: cs)
+  end.
+
 (* ------------------------------------------------------------------ the modelled domain, as boolean checks *)
 Definition byteb (b : Z) : bool := (0 <=? b) && (b <? 256).
 Definition wf_cellb (c : cell) : bool :=
@@ -369,6 +408,25 @@ Definition op_okb (ts : list table) (o : op) : bool :=
 Definition view_okb (t : table) (v : option (list nat)) : bool :=
   match v with None => true | Some idx => forallb (fun i => Nat.ltb i (length t)) idx end.
 
+(* a JoinLink of the domain: single ids, each naming a column of the dataset the link names for it *)
+Fixpoint nodupb (l : list nat) : bool := match l with [] => true | x :: t => negb (memb x t) && nodupb t end.
+Definition layout_okb (ts : list table) (L : layout) : bool :=
+  Nat.eqb (length L) (length ts) &&
+  forallb (fun p => nodupb (snd p) && match fst p with [] => true | _ => Nat.eqb (length (snd p)) (ncols (fst p)) end) (combine ts L).
+Definition link_okb (ts : list table) (L : layout) (l : jlink) : bool :=
+  Nat.eqb (length (cids1 l)) 1 && Nat.eqb (length (cids2 l)) 1 &&
+  Nat.ltb (data1 l) (length ts) && Nat.ltb (data2 l) (length ts) &&
+  Nat.ltb (cpos L (data1 l) (hd dcid (cids1 l))) (length (nth (data1 l) L [])) &&
+  Nat.ltb (cpos L (data2 l) (hd dcid (cids2 l))) (length (nth (data2 l) L [])) &&
+  Nat.ltb (cid_parent (hd dcid (cids1 l))) (length ts) && Nat.ltb (cid_parent (hd dcid (cids2 l))) (length ts).
+Definition lop_okb (ts : list table) (L : layout) (o : lop) : bool :=
+  match o with
+  | LPlain o => op_okb ts o
+  | LLink l => link_okb ts L l &&
+               op_okb ts (OJoin (data1 l) (data2 l) [cpos L (data1 l) (hd dcid (cids1 l))] [cpos L (data2 l) (hd dcid (cids2 l))])
+  | LUnlink l => link_okb ts L l
+  end.
+
 (* ------------------------------------------------------------------ wire *)
 Definition dec_kind (z : Z) : kind := if z =? 0 then KInt else if z =? 1 then KFlt else KStr.
 Definition dec_cell (t : tree) : cell :=
@@ -387,6 +445,14 @@ Definition dec_op (t : tree) : op :=
   | T 2 [a; b; ca; cb] => OUnlink (dec_nat a) (dec_nat b) (dec_nat ca) (dec_nat cb)
   | T _ [a; b; ca; cb] => OJoin (dec_nat a) (dec_nat b) (dec_nats ca) (dec_nats cb)
   | _ => OJoin 0 0 [] []
+  end.
+Definition dec_cid (t : tree) : cid := Cid (dec_nat t) (dec_nat (kid 0 t)).
+Definition dec_link (a b ca cb : tree) : jlink := JLink (dec_nat a) (dec_nat b) [dec_cid ca] [dec_cid cb].
+Definition dec_lop (t : tree) : lop :=
+  match t with
+  | T 3 [a; b; ca; cb] => LLink (dec_link a b ca cb)
+  | T 4 [a; b; ca; cb] => LUnlink (dec_link a b ca cb)
+  | _ => LPlain (dec_op t)
   end.
 Definition dec_view (t : tree) : option (list nat) :=
   match t with T 0 _ => None | T _ _ => Some (dec_nats t) end.
@@ -423,9 +489,24 @@ Definition run_system (ds : list tree) (ops : list tree) (qs : list tree) : tree
                       let '(d, v, ow) := q in enc_outcome (get_mask_top (Sys ts js ow) d v)) queries) ]
   else err E_DOMAIN.
 
+(* the same with ComponentID identities: [lay] = per dataset the uids of its columns; operations may be JoinLinks *)
+Definition run_system_ids (ds : list tree) (lay : list tree) (ops : list tree) (qs : list tree) : tree :=
+  let ts := map dec_table ds in
+  let L := map dec_nats lay in
+  let os := map dec_lop ops in
+  let queries := map dec_query qs in
+  if forallb wf_tableb ts && layout_okb ts L && forallb (lop_okb ts L) os && forallb (query_okb ts) queries
+  then
+    let '(js, codes) := apply_lops L (map (fun _ => []) ts) os in
+    T 0 [ zs codes; enc_joins js;
+          T 0 (map (fun q : nat * option (list nat) * list (option (list bool)) =>
+                      let '(d, v, ow) := q in enc_outcome (get_mask_top (Sys ts js ow) d v)) queries) ]
+  else err E_DOMAIN.
+
 Definition run_case (t : tree) : tree :=
   match t with
   | T 1 [T _ ds; T _ ops; T _ qs] => run_system ds ops qs
+  | T 4 [T _ ds; T _ lay; T _ ops; T _ qs] => run_system_ids ds lay ops qs
   (* concatenate_arrays of the columns: one S<total> item per row, as compared by numpy *)
   | T 2 [tb] => T 0 (map (fun r => zs (concat_key r)) (dec_table tb))
   (* a single pair of key tuples: (np.isin by value per column pair, unrepaired n-n match, repaired n-n match) *)
